@@ -89,12 +89,12 @@ def write_file(text, name='in.md'):
     return path
 
 
-def cli_main(name, paths):
+def cli_main(name, paths, stdout_encoding='utf-8'):
     """run cli.main in-process with sys.stdout replaced; returns bytes"""
     from mistletoe import cli
     core.fresh()
     buf = io.BytesIO()
-    wrapper = io.TextIOWrapper(buf, encoding='utf-8', newline='')
+    wrapper = io.TextIOWrapper(buf, encoding=stdout_encoding, errors='replace', newline='')
     old = sys.stdout
     sys.stdout = wrapper
     try:
@@ -131,6 +131,9 @@ def forms_of(text, name):
         yield 'file-object', render(name, fin).encode()
     yield 'cli.convert_file', cli_convert_file(name, path)
     yield 'cli.main', cli_main(name, [path])
+    if not text.isascii():
+        # the tool writes UTF-8 bytes whatever the text layer of standard output is set to
+        yield 'cli.main with a latin-1 stdout', cli_main(name, [path], 'latin-1')
 
 
 def check_text(r, text, cross=None):
@@ -252,6 +255,11 @@ def check_pair(name, t1, t2):
     got = cli_main(name, [p1, p2])
     if got != want:
         return dict(sig='cli-pair-not-concatenation', expected=want.decode(), observed=got.decode('utf-8', 'replace'))
+    # a file named twice is converted twice, in the order named
+    want3 = want + render(name, t1).encode()
+    got3 = cli_main(name, [p1, p2, p1])
+    if got3 != want3:
+        return dict(sig='cli-repeated-file-not-concatenation', expected=want3.decode(), observed=got3.decode('utf-8', 'replace'))
     return None
 
 
@@ -263,6 +271,10 @@ def check_subprocess(name, texts):
     p = subprocess.run(args, capture_output=True, cwd=core.REPO, env=env)
     if p.returncode != 0 or p.stdout != want:
         return dict(sig='subprocess-cli-differs', expected=want.decode(), observed=p.stdout.decode('utf-8', 'replace') + p.stderr.decode('utf-8', 'replace')[-300:])
+    if not want.isascii():
+        p = subprocess.run(args, capture_output=True, cwd=core.REPO, env=dict(env, PYTHONIOENCODING='latin-1'))
+        if p.returncode != 0 or p.stdout != want:
+            return dict(sig='subprocess-cli-differs:latin-1-stdout', expected=want.decode(), observed=p.stdout.decode('utf-8', 'replace') + p.stderr.decode('utf-8', 'replace')[-300:])
     return None
 
 
